@@ -1,8 +1,9 @@
 //! C13 — meaning-preserving rewrites of source programs (spec/Rewrites.tla, spec/RewritesTrace.tla).
 //!
 //! `vh rewrite --in PROGRAMS.ndjson --out HISTORIES.ndjson --seed S --per-program K --chain L`
-//!   parses and type-checks each program, enumerates the applicable instances ("sites") of the eight
-//!   rewrite kinds on the typed AST, and applies sampled instances TEXTUALLY (byte edits computed
+//!   parses and type-checks each program, enumerates the applicable instances ("sites") of the nine
+//!   rewrite kinds on the typed AST, and applies sampled instances (`--exhaustive`: every instance,
+//!   each as a history of one step) TEXTUALLY (byte edits computed
 //!   from AST locations; nothing else is reformatted, the repository's printer is not used).
 //!   After every rewrite all modules are re-parsed and the location-free, comment-free *shape* of
 //!   every module is compared with the shape the rewrite is supposed to produce (the original
@@ -17,7 +18,7 @@
 //! `vh rewrite-break --in PROGRAMS.ndjson --out FILE --seed S --per-program K`
 //!   derives statically wrong programs (one injected type error each) from well-typed ones.
 use crate::compile::module_ref;
-use crate::util::{arg, arg_or, guarded, silence_panics, Rng};
+use crate::util::{arg, arg_or, flag, guarded, silence_panics, Rng};
 use samlang_ast::source::{annotation, expr, pattern, Module, Toplevel, TypeDefinition};
 use samlang_ast::{Location, Position};
 use samlang_checker::type_::{PrimitiveTypeKind, Type};
@@ -30,7 +31,7 @@ use std::sync::Arc;
 
 type T = Arc<Type>;
 
-pub const KINDS: [&str; 8] = [
+pub const KINDS: [&str; 9] = [
   "RenameLocal",
   "ReorderToplevels",
   "ReorderMembers",
@@ -39,6 +40,7 @@ pub const KINDS: [&str; 8] = [
   "AnnotateLet",
   "ExplicitTypeArgs",
   "SplitModule",
+  "AnnotateLambda",
 ];
 
 // ------------------------------------------------------------------------------------------------
@@ -292,6 +294,8 @@ struct Mods {
   annot_at: Option<(Location, String)>,
   /// member access (by location) that must carry these explicit type arguments
   targs_at: Option<(Location, String)>,
+  /// lambda parameters (by the location of the parameter name) that must carry this annotation shape
+  param_annot: HashMap<Location, String>,
   /// (module, i, j): toplevels i and j swapped
   top_swap: Option<(ModuleReference, usize, usize)>,
   /// (module, toplevel, i, j): members i and j swapped
@@ -536,9 +540,16 @@ impl<'a> Shaper<'a> {
         self.w("Lam(");
         for p in &l.parameters.parameters {
           self.w(&self.name_at(&p.name.loc, p.name.name));
-          if let Some(a) = &p.annotation {
-            self.w(":");
-            self.annot(a);
+          match (&p.annotation, self.mods.param_annot.get(&p.name.loc)) {
+            (Some(a), _) => {
+              self.w(":");
+              self.annot(a);
+            }
+            (None, Some(sh)) => {
+              self.w(":");
+              self.w(sh);
+            }
+            (None, None) => {}
           }
           self.w(",");
         }
@@ -860,6 +871,15 @@ enum SiteData {
   Annot { decl: Location, pat_end: Position, text: String, shape: String },
   Targs { access: Location, name_end: Position, text: String, shape: String },
   Split { top: usize },
+  /// `params`: the parameters that receive an annotation (all un-annotated ones, or a single one)
+  LamAnnot { lambda: Location, params: Vec<LamParam>, which: String },
+}
+
+#[derive(Clone)]
+struct LamParam {
+  name_loc: Location,
+  text: String,
+  shape: String,
 }
 
 #[derive(Clone)]
@@ -883,6 +903,11 @@ impl Site {
       SiteData::Annot { decl, text, .. } => format!("{} : {text}", loc_str(decl)),
       SiteData::Targs { access, text, .. } => format!("{} {text}", loc_str(access)),
       SiteData::Split { top } => format!("toplevel {top}"),
+      SiteData::LamAnnot { lambda, params, which } => format!(
+        "{} {which} ({})",
+        loc_str(lambda),
+        params.iter().map(|p| format!("{}: {}", loc_str(&p.name_loc), p.text)).collect::<Vec<_>>().join(", ")
+      ),
     };
     format!("{} {}", self.module, d)
   }
@@ -894,11 +919,66 @@ struct SiteCollector<'a> {
   cx: NameCx,
   binders: Vec<(Location, PStr)>,
   sites: Vec<Site>,
+  /// the expression visited next is a direct argument of a call whose type arguments are inferred
+  arg_of_inferred_call: bool,
+  /// census of the language features the annotation rewrites meet (evidence only)
+  features: BTreeMap<&'static str, usize>,
+}
+
+fn has_type_arguments(t: &Type) -> bool {
+  matches!(t, Type::Nominal(n) if !n.type_arguments.is_empty())
 }
 
 impl<'a> SiteCollector<'a> {
   fn push(&mut self, kind: usize, data: SiteData) {
     self.sites.push(Site { kind, module: self.module.clone(), data });
+  }
+  fn feature(&mut self, f: &'static str) {
+    *self.features.entry(f).or_default() += 1;
+  }
+
+  /// AnnotateLambda: the un-annotated parameters of a lambda get their inferred types; one
+  /// instance annotates all of them, and when there are several, one instance per parameter
+  fn lambda_sites(&mut self, l: &expr::Lambda<T>, arg_of_inferred_call: bool) {
+    if l.parameters.parameters.is_empty() {
+      self.feature("lambdas_without_parameters");
+      if arg_of_inferred_call {
+        self.feature("lambdas_without_parameters_as_argument_of_call_with_inferred_type_arguments");
+      }
+    }
+    if matches!(l.body.as_ref(), expr::E::Lambda(_)) {
+      self.feature("lambdas_returning_lambda");
+    }
+    let open: Vec<(usize, Option<LamParam>)> = l
+      .parameters
+      .parameters
+      .iter()
+      .enumerate()
+      .filter(|(_, p)| p.annotation.is_none())
+      .map(|(i, p)| {
+        (i, type_text_shape(self.heap, &self.cx, &p.type_).map(|(text, shape)| LamParam { name_loc: p.name.loc, text, shape }))
+      })
+      .collect();
+    if open.is_empty() {
+      return;
+    }
+    self.feature("lambdas_with_unannotated_parameters");
+    if open.iter().all(|(_, p)| p.is_some()) {
+      let params: Vec<LamParam> = open.iter().filter_map(|(_, p)| p.clone()).collect();
+      self.push(8, SiteData::LamAnnot { lambda: l.common.loc, params, which: "all".into() });
+      if arg_of_inferred_call {
+        self.feature("annotate_lambda_sites_as_argument_of_call_with_inferred_type_arguments");
+      }
+    } else {
+      self.feature("lambdas_with_unprintable_parameter_type");
+    }
+    if open.len() >= 2 {
+      for (i, p) in &open {
+        if let Some(p) = p {
+          self.push(8, SiteData::LamAnnot { lambda: l.common.loc, params: vec![p.clone()], which: format!("param {i}") });
+        }
+      }
+    }
   }
 
   fn pat(&mut self, p: &pattern::MatchingPattern<T>) {
@@ -932,6 +1012,7 @@ impl<'a> SiteCollector<'a> {
   /// `paren_ok`: a parenthesised expression is grammatical here (not for the branches of if-else);
   /// `block_ok`: a block expression means the same here.
   fn expr(&mut self, e: &expr::E<T>, paren_ok: bool, block_ok: bool) {
+    let arg_of_inferred_call = std::mem::replace(&mut self.arg_of_inferred_call, false);
     let loc = e.loc();
     let is_class = matches!(e, expr::E::ClassId(..));
     if paren_ok {
@@ -990,6 +1071,7 @@ impl<'a> SiteCollector<'a> {
         };
         self.expr(&c.callee, true, !generic_member_callee);
         for x in &c.arguments.expressions {
+          self.arg_of_inferred_call = generic_member_callee;
           self.expr(x, true, true);
         }
       }
@@ -1009,6 +1091,7 @@ impl<'a> SiteCollector<'a> {
         for p in &l.parameters.parameters {
           self.binders.push((p.name.loc, p.name.name));
         }
+        self.lambda_sites(l, arg_of_inferred_call);
         self.expr(&l.body, true, true);
       }
       expr::E::Block(b) => self.block(b),
@@ -1045,6 +1128,9 @@ impl<'a> SiteCollector<'a> {
           if d.annotation.is_none() {
             if let Some((text, shape)) = type_text_shape(self.heap, &self.cx, d.assigned_expression.type_()) {
               self.push(5, SiteData::Annot { decl: d.loc, pat_end: d.pattern.loc().end, text, shape });
+              if has_type_arguments(d.assigned_expression.type_()) {
+                self.feature("annotate_let_sites_with_instantiated_generic_class");
+              }
             }
           }
           self.expr(&d.assigned_expression, true, true);
@@ -1056,6 +1142,45 @@ impl<'a> SiteCollector<'a> {
       self.expr(e, true, true);
     }
   }
+}
+
+/// census: type-parameter bounds that mention the parameter itself / an earlier / a later parameter
+fn bound_features(heap: &Heap, tps: Option<&annotation::TypeParameters>) -> Vec<(&'static str, usize)> {
+  fn mentions(heap: &Heap, a: &annotation::T, name: &str) -> bool {
+    match a {
+      annotation::T::Primitive(..) => false,
+      annotation::T::Generic(_, id) => id.name.as_str(heap) == name,
+      annotation::T::Id(id) => id.type_arguments.iter().flat_map(|t| &t.arguments).any(|x| mentions(heap, x, name)),
+      annotation::T::Fn(f) => {
+        f.parameters.annotations.iter().any(|x| mentions(heap, x, name)) || mentions(heap, &f.return_type, name)
+      }
+    }
+  }
+  let mut out = vec![];
+  if let Some(tps) = tps {
+    let names: Vec<String> = tps.parameters.iter().map(|p| p.name.name.as_str(heap).to_string()).collect();
+    for (i, p) in tps.parameters.iter().enumerate() {
+      if let Some(b) = &p.bound {
+        out.push(("type_parameter_bounds", 1));
+        let args: Vec<&annotation::T> = b.type_arguments.iter().flat_map(|t| &t.arguments).collect();
+        for (j, n) in names.iter().enumerate() {
+          if args.iter().any(|x| mentions(heap, x, n)) {
+            out.push((
+              if j == i {
+                "type_parameter_bounds_mentioning_itself"
+              } else if j < i {
+                "type_parameter_bounds_mentioning_earlier_parameter"
+              } else {
+                "type_parameter_bounds_mentioning_later_parameter"
+              },
+              1,
+            ));
+          }
+        }
+      }
+    }
+  }
+  out
 }
 
 fn pair_sites(n: usize, cap: usize, mut f: impl FnMut(usize, usize)) {
@@ -1075,19 +1200,39 @@ fn pair_sites(n: usize, cap: usize, mut f: impl FnMut(usize, usize)) {
 }
 
 fn collect_sites(a: &Analysis, entry: &str) -> Vec<Site> {
+  collect_sites_and_features(a, entry).0
+}
+
+fn collect_sites_and_features(a: &Analysis, entry: &str) -> (Vec<Site>, BTreeMap<&'static str, usize>) {
   let mut all = vec![];
+  let mut features: BTreeMap<&'static str, usize> = BTreeMap::new();
   for (name, m) in &a.refs {
     let (parsed, checked) = match (a.parsed.get(m), a.checked.get(m)) {
       (Some(p), Some(c)) => (p, c),
       _ => continue,
     };
-    let mut col =
-      SiteCollector { heap: &a.heap, module: name.clone(), cx: NameCx::of(*m, parsed), binders: vec![], sites: vec![] };
+    let mut col = SiteCollector {
+      heap: &a.heap,
+      module: name.clone(),
+      cx: NameCx::of(*m, parsed),
+      binders: vec![],
+      sites: vec![],
+      arg_of_inferred_call: false,
+      features: BTreeMap::new(),
+    };
     let is_std = name.starts_with("std.");
     if !is_std {
       pair_sites(checked.toplevels.len(), 64, |i, j| col.push(1, SiteData::ReorderTop { i, j }));
     }
     for (ti, t) in checked.toplevels.iter().enumerate() {
+      for (f, n) in bound_features(&a.heap, t.type_parameters()) {
+        *col.features.entry(f).or_default() += n;
+      }
+      for d in t.members_iter() {
+        for (f, n) in bound_features(&a.heap, d.type_parameters.as_ref()) {
+          *col.features.entry(f).or_default() += n;
+        }
+      }
       let n_members = t.members_iter().count();
       pair_sites(n_members, 24, |i, j| col.push(2, SiteData::ReorderMem { top: ti, i, j }));
       for d in t.members_iter() {
@@ -1118,8 +1263,11 @@ fn collect_sites(a: &Analysis, entry: &str) -> Vec<Site> {
       }
     }
     all.extend(col.sites);
+    for (f, n) in col.features {
+      *features.entry(f).or_default() += n;
+    }
   }
-  all
+  (all, features)
 }
 
 // ------------------------------------------------------------------------------------------------
@@ -1365,6 +1513,15 @@ fn apply_site(a: &Analysis, site: &Site, rng: &mut Rng) -> Result<Applied, &'sta
       );
       mods.targs_at = Some((*access, shape.clone()));
     }
+    SiteData::LamAnnot { params, .. } => {
+      let mut edits = vec![];
+      for p in params {
+        let (_, at) = ix.range(&p.name_loc).ok_or("range")?;
+        edits.push(Edit { s: at, e: at, text: format!(": {}", p.text) });
+        mods.param_annot.insert(p.name_loc, p.shape.clone());
+      }
+      sources.insert(site.module.clone(), apply_edits(text, edits).ok_or("overlap")?);
+    }
     SiteData::Split { top } => {
       let t = parsed.toplevels.get(*top).ok_or("no-toplevel")?;
       let c = t.name().name.as_str(&a.heap).to_string();
@@ -1555,8 +1712,63 @@ fn load_avoid(path: Option<String>) -> Vec<(String, String)> {
   v
 }
 
+/// applies one instance and keeps it only if the re-parsed program shows exactly the intended
+/// modification; the reason is counted otherwise
+fn try_site(
+  a: &Analysis,
+  site: &Site,
+  desc: &str,
+  rng: &mut Rng,
+  with_std: bool,
+  stats: &mut KindStats,
+) -> Option<(BTreeMap<String, String>, Analysis)> {
+  let kind = site.kind;
+  stats.attempted += 1;
+  let applied = match guarded(|| apply_site(a, site, rng)) {
+    Ok(Ok(ap)) => ap,
+    Ok(Err(why)) => {
+      *stats.discarded.entry(why.to_string()).or_default() += 1;
+      return None;
+    }
+    Err(_) => {
+      *stats.discarded.entry("rewriter-panic".into()).or_default() += 1;
+      return None;
+    }
+  };
+  let next = match analyse(&applied.sources, with_std) {
+    Ok(n) => n,
+    Err(_) => {
+      // the front end crashed on the rewritten text: cannot be validated structurally
+      *stats.discarded.entry("frontend-crash-after".into()).or_default() += 1;
+      return None;
+    }
+  };
+  if next.syntax_errors > 0 {
+    *stats.discarded.entry("syntax-after".into()).or_default() += 1;
+    return None;
+  }
+  let want = expected_after(a, &applied);
+  let got = plain_shapes(&next);
+  if want != got {
+    if std::env::var("VH_REWRITE_DEBUG").is_ok() {
+      for (n, w) in &want {
+        if got.get(n) != Some(w) {
+          eprintln!("SHAPE-MISMATCH {} {} module {}\n--- want\n{}\n--- got\n{}", KINDS[kind], desc, n, w, got.get(n).cloned().unwrap_or_default());
+        }
+      }
+    }
+    *stats.discarded.entry("shape-mismatch".into()).or_default() += 1;
+    return None;
+  }
+  stats.applied += 1;
+  Some((applied.sources, next))
+}
+
 pub fn main(args: &[String]) {
   silence_panics();
+  let exhaustive = flag(args, "--exhaustive");
+  let max_per_kind: usize = arg_or(args, "--max-per-kind", "0").parse().unwrap();
+  let mut features: BTreeMap<&'static str, usize> = BTreeMap::new();
   let input = std::fs::read_to_string(arg(args, "--in").expect("--in")).unwrap();
   let out = arg(args, "--out").expect("--out");
   let seed: u64 = arg_or(args, "--seed", "1").parse().unwrap();
@@ -1586,9 +1798,41 @@ pub fn main(args: &[String]) {
       n_unparseable += 1;
       continue;
     }
-    let base_sites = collect_sites(&base, &entry);
+    let (base_sites, base_features) = collect_sites_and_features(&base, &entry);
     for s in &base_sites {
       stats[s.kind].found += 1;
+    }
+    for (f, n) in base_features {
+      *features.entry(f).or_default() += n;
+    }
+    if exhaustive {
+      // every applicable instance (per kind at most --max-per-kind, evenly spread), each a history of one step
+      let mut h = 0;
+      for kind in 0..KINDS.len() {
+        if !only.as_ref().map(|o| o.iter().any(|x| x == KINDS[kind])).unwrap_or(true) {
+          continue;
+        }
+        let of_kind: Vec<&Site> = base_sites.iter().filter(|s| s.kind == kind).collect();
+        let take = if max_per_kind == 0 { of_kind.len() } else { max_per_kind.min(of_kind.len()) };
+        let offset = if take < of_kind.len() { rng.below(of_kind.len()) } else { 0 };
+        for t in 0..take {
+          let site = of_kind[(offset + t * of_kind.len() / take) % of_kind.len()];
+          let desc = site.describe();
+          if avoid.iter().any(|(ak, c)| ak == KINDS[kind] && base.texts.get(&site.module).map(|t| t.contains(c.as_str())).unwrap_or(false)) {
+            *stats[kind].discarded.entry("known-finding-signature".into()).or_default() += 1;
+            continue;
+          }
+          if let Some((new_sources, next)) = try_site(&base, site, &desc, &mut rng, with_std, &mut stats[kind]) {
+            let step = json!({"pid": pid, "hist": h, "step": 1, "kind": KINDS[kind], "site": desc, "valid": true,
+                              "delta": delta(&sources, &new_sources), "checker_errors": next.errors});
+            writeln!(f, "{}", step).unwrap();
+            h += 1;
+            n_hist += 1;
+            n_steps += 1;
+          }
+        }
+      }
+      continue;
     }
     let mut first_choices: HashSet<String> = HashSet::new();
     for h in 0..per_program {
@@ -1628,49 +1872,13 @@ pub fn main(args: &[String]) {
             *stats[kind].discarded.entry("known-finding-signature".into()).or_default() += 1;
             continue;
           }
-          stats[kind].attempted += 1;
           if k == 1 {
             first_choices.insert(format!("{kind} {desc}"));
           }
-          let applied = match guarded(|| apply_site(a, site, &mut rng)) {
-            Ok(Ok(ap)) => ap,
-            Ok(Err(why)) => {
-              *stats[kind].discarded.entry(why.to_string()).or_default() += 1;
-              continue;
-            }
-            Err(_) => {
-              *stats[kind].discarded.entry("rewriter-panic".into()).or_default() += 1;
-              continue;
-            }
-          };
-          let next = match analyse(&applied.sources, with_std) {
-            Ok(n) => n,
-            Err(_) => {
-              // the front end crashed on the rewritten text: cannot be validated structurally
-              *stats[kind].discarded.entry("frontend-crash-after".into()).or_default() += 1;
-              continue;
-            }
-          };
-          if next.syntax_errors > 0 {
-            *stats[kind].discarded.entry("syntax-after".into()).or_default() += 1;
-            continue;
+          if let Some((new_sources, next)) = try_site(a, site, &desc, &mut rng, with_std, &mut stats[kind]) {
+            done = Some((kind, desc, new_sources, next));
+            break;
           }
-          let want = expected_after(a, &applied);
-          let got = plain_shapes(&next);
-          if want != got {
-            if std::env::var("VH_REWRITE_DEBUG").is_ok() {
-              for (n, w) in &want {
-                if got.get(n) != Some(w) {
-                  eprintln!("SHAPE-MISMATCH {} {} module {}\n--- want\n{}\n--- got\n{}", KINDS[kind], desc, n, w, got.get(n).cloned().unwrap_or_default());
-                }
-              }
-            }
-            *stats[kind].discarded.entry("shape-mismatch".into()).or_default() += 1;
-            continue;
-          }
-          stats[kind].applied += 1;
-          done = Some((kind, desc, applied.sources, next));
-          break;
         }
         let (kind, desc, new_sources, next) = match done {
           Some(d) => d,
@@ -1700,7 +1908,7 @@ pub fn main(args: &[String]) {
   println!(
     "{}",
     json!({"programs": n_programs, "unparseable": n_unparseable, "frontend_crashed": n_crashed,
-           "histories": n_hist, "steps": n_steps, "kinds": census})
+           "histories": n_hist, "steps": n_steps, "kinds": census, "features": features})
   );
 }
 
